@@ -224,6 +224,7 @@ type sideT struct {
 	Stopped bool     `json:"stopped"`
 	Panic   bool     `json:"panic"`
 	PanicS  string   `json:"panics,omitempty"`
+	Wdm     []int    `json:"wdm"` // values passed to the OnWDM callback during this step
 }
 
 type lineT struct {
@@ -257,6 +258,8 @@ type stepEv struct {
 func (p *cpuPair) stepPri() (s sideT) {
 	c := p.pri
 	s.All0 = int(c.AllCycles)
+	s.Wdm = []int{}
+	c.OnWDM = func(v byte) { s.Wdm = append(s.Wdm, int(v)) }
 	p.memP.writes = p.memP.writes[:0]
 	func() {
 		defer func() {
@@ -278,6 +281,8 @@ func (p *cpuPair) stepPri() (s sideT) {
 func (p *cpuPair) stepAlt() (s sideT) {
 	c := p.alt
 	s.All0 = int(c.AllCycles)
+	s.Wdm = []int{}
+	c.OnWDM = func(v byte) { s.Wdm = append(s.Wdm, int(v)) }
 	p.memA.writes = p.memA.writes[:0]
 	func() {
 		defer func() {
@@ -363,7 +368,7 @@ func (p *cpuPair) traceLines() *struct {
 	return out
 }
 
-var corner16 = []int{0, 1, 0xFF, 0x100, 0x7FFF, 0x8000, 0xFFFE, 0xFFFF, 0x00FE, 0x0101, 0xFF00}
+var corner16 = []int{0, 1, 0xFF, 0x100, 0x7FFF, 0x8000, 0xFFFE, 0xFFFF, 0x00FE, 0x0101, 0xFF00, 0xFFFD, 0xFFFC, 2}
 var corner8 = []int{0, 1, 0x7F, 0x80, 0xFE, 0xFF}
 
 func pick16(r *rand.Rand) int {
@@ -504,6 +509,11 @@ var progAlphabet = [][]byte{
 	{0x1B}, {0x3B}, {0x5B}, {0x7B}, {0x9A}, {0xBA}, // TCS TSC TCD TDC TXS TSX
 	{0x54, 0x7E, 0x7F}, {0x44, 0x7F, 0x7E}, // MVN MVP
 	{0x1A}, {0x3A}, {0x0A}, {0x4A}, {0x2A}, {0x6A}, // INC DEC ASL LSR ROL ROR (accumulator)
+	// flag producers followed by flag consumers (lengths independent of M/X): hidden flag state must behave like the flag
+	{0x2C, 0x00, 0x30}, {0x2C, 0x02, 0x30}, {0x24, 0x40}, {0x24, 0x42}, {0xC5, 0x40}, {0xE4, 0x42}, {0x65, 0x40}, {0xE5, 0x42}, // BIT CMP CPX ADC SBC
+	{0xE6, 0x40}, {0x06, 0x42}, {0xA5, 0x40}, {0x85, 0x44}, {0xB8}, {0xD8}, // INC ASL LDA STA CLV CLD
+	{0x10, 0x01}, {0x30, 0x01}, {0x50, 0x01}, {0x70, 0x01}, {0x90, 0x01}, {0xB0, 0x01}, {0xD0, 0x01}, {0xF0, 0x01}, // Bxx +1
+	{0x50, 0x00}, {0x70, 0x00}, {0x80, 0x00},
 }
 
 func (p *cpuPair) chain(r *rand.Rand, n int, mode string, kind string, w *json.Encoder) int {
@@ -536,6 +546,19 @@ func (p *cpuPair) chain(r *rand.Rand, n int, mode string, kind string, w *json.E
 		}
 		if a.C > 40 && r.Intn(2) == 0 {
 			a.C = r.Intn(4) // short block moves
+		}
+		if r.Intn(6) == 0 {
+			// a block move whose destination range runs over its own operand bytes (the opcode is re-executed per byte
+			// and must re-read them): MVN dst=K at the start of the program, Y pointing at/before the operands
+			base := uint32(a.K) << 16
+			src := byte(1 + r.Intn(0x7D))
+			p.poke(base|uint32(a.PC&0xFFFF), 0x54)
+			p.poke(base|uint32((a.PC+1)&0xFFFF), byte(a.K))
+			p.poke(base|uint32((a.PC+2)&0xFFFF), src)
+			a.P &^= 0x10 // 16-bit index registers
+			a.Y = (a.PC + r.Intn(3)) & 0xFFFF
+			a.X = r.Intn(0x10000)
+			a.C = 2 + r.Intn(4)
 		}
 	}
 	all := uint64(r.Intn(1 << 20))
@@ -577,8 +600,67 @@ func (p *cpuPair) chain(r *rand.Rand, n int, mode string, kind string, w *json.E
 	return cnt
 }
 
+// replay of pre-states exported by TLC from CpuMC.tla: {seed, ov, pre} per line
+func (p *cpuPair) replayFile(in string, enc *json.Encoder, r *rand.Rand) (int, error) {
+	f, err := os.Open(in)
+	if err != nil {
+		return 0, err
+	}
+	defer f.Close()
+	sc := bufio.NewScanner(f)
+	sc.Buffer(make([]byte, 1<<20), 1<<24)
+	cnt := 0
+	for sc.Scan() {
+		var x struct {
+			Seed int      `json:"seed"`
+			Ov   [][2]int `json:"ov"`
+			Pre  Arch     `json:"pre"`
+		}
+		if err := json.Unmarshal(sc.Bytes(), &x); err != nil {
+			return cnt, err
+		}
+		if uint32(x.Seed) != p.seed {
+			p.reseed(uint32(x.Seed))
+		}
+		p.clean()
+		for _, o := range x.Ov {
+			p.poke(uint32(o[0]), byte(o[1]))
+		}
+		all := uint64(r.Intn(1 << 20))
+		loadPri(p.pri, x.Pre, r, all)
+		loadAlt(p.alt, x.Pre, r, all)
+		ev := stepEv{Tag: "mc", Seed: int(p.seed), Ov: p.ov(), Pre: projPri(p.pri)}
+		if traceMode {
+			ev.Line = p.traceLines()
+		}
+		ev.Pri = p.stepPri()
+		ev.Alt = p.stepAlt()
+		enc.Encode(&ev)
+		cnt++
+	}
+	return cnt, sc.Err()
+}
+
 func init() {
 	register("cpu", func(args []string) error {
+		if len(args) >= 3 && (args[0] == "replay" || args[0] == "trace-replay") { // vh cpu replay <in> <out>
+			traceMode = args[0] == "trace-replay"
+			f, err := os.Create(args[2])
+			if err != nil {
+				return err
+			}
+			defer f.Close()
+			bw := bufio.NewWriterSize(f, 1<<20)
+			defer bw.Flush()
+			p := newPair()
+			n, err := p.replayFile(args[1], json.NewEncoder(bw), rand.New(rand.NewSource(seedEnv())))
+			if err != nil {
+				return err
+			}
+			bw.Flush()
+			fmt.Printf("{\"events\": %d}\n", n)
+			return nil
+		}
 		// vh cpu record <mode> <out.ndjson> <n>     mode: native | top | dec | any | chain | chainany
 		if len(args) < 4 || args[0] != "record" {
 			return fmt.Errorf("usage: vh cpu record <mode> <out.ndjson> <n>")
